@@ -292,6 +292,15 @@ def check(run) -> None:
                  {"geo": [{"cols": 20, "rows": 4}], "deltas": [2] * 290, "t0": 7, "pat": "long",
                   "anims": [{"d": 1, "row": 1, "n": 262, "at": 0, "style": "typewriter", "speed": 1, "loop": False, "via": "main"},
                             {"d": 1, "row": 3, "n": 236, "at": 0, "style": "scroll", "speed": 1, "loop": False, "via": "main"}]}]
+        # restarts (hand-written, same format, same trace specification): an animation is started after an earlier one has run to
+        # its end, on the row and in the style of one that is still running; the newcomer finishes too and the looping one
+        # underneath has to be seen moving again afterwards
+        for n, (s0, s1, r0) in enumerate((("typewriter", "scroll", 0), ("scroll", "bounce", 0), ("blink", "scroll", 1), ("typewriter", "typewriter", 1))):
+            longs.append({"geo": [{"cols": 16, "rows": 2}], "deltas": [5] * 60, "t0": 1 + n, "pat": "long",
+                          "anims": [{"d": 1, "row": r0, "n": 3, "at": 0, "style": s0, "speed": 1, "loop": False, "via": "main"},
+                                    {"d": 1, "row": 1, "n": 20 + n, "at": 0, "style": s1, "speed": 5, "loop": True, "via": "main"},
+                                    {"d": 1, "row": 1, "n": 4, "at": 14 + n, "style": s1, "speed": 3, "loop": False, "via": "main"},
+                                    {"d": 1, "row": 1 - r0, "n": 5, "at": 40, "style": s1, "speed": 2, "loop": False, "via": "main"}]})
         tl, ml = host_traces(longs, "long")
         vl = pool.submit(_validate, tl, "host long behaviours")
         fw_leg(run, longs, "long")
